@@ -1,6 +1,7 @@
 package main
 
 import (
+	"math"
 	"bytes"
 	"encoding/json"
 	"fmt"
@@ -169,7 +170,8 @@ func genC15(c *Ctx, r *rng.R, i int) {
 		kind = "weakened"
 	case 2:
 		// an infinity of either sign somewhere inside: JSON has no spelling for it
-		inf := []cty.Value{cty.PositiveInfinity, cty.NegativeInfinity}[r.Intn(2)]
+		inf := []cty.Value{cty.PositiveInfinity, cty.NegativeInfinity, cty.NumberFloatVal(math.Inf(1)), cty.NumberFloatVal(math.Inf(-1)),
+			cty.MustParseNumberVal("-Inf"), cty.PositiveInfinity.Negate(), cty.NegativeInfinity.Absolute()}[r.Intn(7)]
 		done := false
 		if w, err := cty.Transform(v, func(p cty.Path, x cty.Value) (cty.Value, error) {
 			if !done && x.Type() == cty.Number && x.IsKnown() && !x.IsNull() && r.Bool() {
